@@ -138,6 +138,9 @@ func (r *RoundRobin) nextServer() (*server, error) {
 			if r.currentWeight <= 0 {
 				r.currentWeight = maxWeight
 				if r.currentWeight == 0 {
+					// leave the iterator in its initial state, otherwise the next call
+					// would pick a zero-weight server without going through this check
+					r.resetIterator()
 					return nil, errors.New("all servers have 0 weight")
 				}
 			}
